@@ -45,6 +45,11 @@ def gen(seed, idx, tier):
     if r.random() < 0.5:
       feats[k] = True
   spec, rejected = scen.pick_model(seed, idx, features=feats, size="s", curated_p=0.2)
+  rs = _rng.gen("c16sleep", seed, idx)  # separate stream: the other draws of this run stay what they were before this knob existed
+  if rs.random() < 0.2:
+    # sleeping enabled: fwd_position runs two collision passes (full, then incremental for newly woken bodies) over the same buffers
+    spec["opt"].update(sleep=True, solver="newton", sleep_tolerance=float(rs.choice([0.02, 0.3])))
+    spec["opt"]["disableflags"] = int(spec["opt"].get("disableflags", 0)) & ~262144
   return {
     "property": ID, "seed": seed, "idx": idx, "model": spec, "nworld": int(r.choice([1, 2, 2, 3])), "rejected_models": rejected, "tier": tier,
     "init": {"seed": int(r.integers(1 << 30)), "pos_noise": 0.15, "vel_noise": 0.8},
@@ -98,7 +103,7 @@ def run(sc):
   R = core.make_data(mjm, m, {"nworld": nworld, "how": "make", "caps": ample, "init": sc["init"]})
   cr = core.Ctx(mjm, m, R)
   viols = []
-  okey = scen.opt_key(sc["model"])
+  okey = scen.opt_key(sc["model"]) + ("/sleep" if core.sleep_enabled(m) else "")
   for p in range(sc["probes"]):
     for o in core.random_history(_rng.mix(sc["hist_seed"], p), mjm, nworld, sc["gap"]):
       core.apply_op(cr, o)
@@ -181,7 +186,7 @@ def run(sc):
             if not (bits & want):
               final_need = {"njmax": int(ref["nefc"][w]), "naconmax": max(int(ref["_nacon_raw"]), int(ref["ncollision"])), "njmax_nnz": nk}[kind]
               viols.append({"class": {"oracle": "silent_overflow", "clause": "bit_missing", "kind": kind, "relation": _relation(c, nk), "jacobian": "sparse" if sparse else "dense",
-                                      "only_intermediate_stage_overflows": bool(final_need <= c)},
+                                      "only_intermediate_stage_overflows": bool(final_need <= c), "sleep": bool(core.sleep_enabled(m))},
                             "detail": {"probe": p, "world": w, "capacity": c, "need": nk, "overflow_bits": bits, "rows": rows, "permuted": permuted,
                                        "nefc_reported": int(got["nefc"][w]), "caps": {k: caps[k] for k in ("naconmax", "njmax", "njmax_nnz")}}})
               continue
